@@ -314,7 +314,12 @@ contract("asn1:ASN1Reader.read_sequence", **_RCOMMON,
          ensures=["result._view == " + _RCONTENT] + _ADV + [_rtagmatch(16, "True")])
 contract("asn1:ASN1Reader.read_set", **_RCOMMON,
          ensures=["result._view == " + _RCONTENT] + _ADV + [_rtagmatch(17, "True")])
-contract("asn1:ASN1Reader.read_enumerated", inline=True)
+# read_enumerated converts to the caller's enum type: ValueError for a value that is not a member (enums without _missing_).
+# enum_type ranges over the three enum types the library passes (closed world).
+contract("asn1:ASN1Reader.read_enumerated", params={"hint": "str", "enum_type": "oneof:_messages.SearchScope,_messages.DereferencingPolicy,_messages.LDAPResultCode"},
+         requires=[_RHDR_OK], raises=_RRAISES, modifies=["self._view"], result="int",
+         on_raise={"NotEnougData": ["self._view == old(self._view)"]},
+         ensures=["len(%s) >= 1" % _RCONTENT, "result == tc(%s)" % _RCONTENT] + _ADV + [_rtagmatch(10, "False")])
 contract("asn1:_read_asn1_enumerated",
          params={"data": "memoryview", "hint": "str"},
          requires=[_HDR_OK],
